@@ -141,7 +141,7 @@ def monStep (m : MSt) (bl : Block) : MSt × List String :=
   | none => (m, [])
   | some ev =>
     let obs := bl.outs.filterMap parseObs
-    let unparsed := bl.outs.filter (fun o => (parseObs o).isNone && o.head? != some "ret" && o.head? != some "det")
+    let unparsed := bl.outs.filter (fun o => (parseObs o).isNone && o.head? != some "ret" && o.head? != some "det" && o.head? != some "parser-edge")
     let st : Step := { ev := ev, obs := obs }
     let c := m.cfg
     let m12 := M12.step c.K m.m12 st
@@ -162,6 +162,8 @@ def monStep (m : MSt) (bl : Block) : MSt × List String :=
       | .bad _ => (obsOf .test obs).isEmpty
       | _ => (obsOf .const obs).isEmpty && (obsOf .test obs).isEmpty
     let fq := (if quiet then [] else ["C17:recorder-call-outside-frame-processing"]) ++
+      (if bl.outs.any (fun o => o.head? == some "parser-edge") then
+         ["C08:parser-ignores-a-different-border-than-the-detector-edge-pixels", "C13:parser-called-with-the-wrong-border-width"] else []) ++
       (match ev with
        | .reset _ => if bl.outs.contains ["det", "restarted=true"] then [] else
            ["C15:detector-not-restarted-on-camera-reset-background-not-re-seeded", "C09:detector-not-restarted-on-camera-reset",
